@@ -363,6 +363,13 @@ func c17Strace(r *mon.Run, rng *rand.Rand, idx int) {
 		w.RecvBuf, w.SendBuf = 3000+rng.IntN(100000), 0
 	case 2:
 		w.RecvBuf, w.SendBuf = 0, 200000+rng.IntN(100000)
+	case 3:
+		// above the kernel's rmem_max / wmem_max (the process runs privileged,
+		// so any forced variants of the options are within its reach)
+		w.RecvBuf, w.SendBuf = (8<<20)+rng.IntN(32<<20), (6<<20)+rng.IntN(16<<20)
+		if rng.IntN(2) == 0 {
+			w.SendBuf = 200000 + rng.IntN(100000)
+		}
 	default:
 		if w.RecvBuf == 0 || w.SendBuf == 0 {
 			w.RecvBuf, w.SendBuf = 3000+rng.IntN(100000), 200000+rng.IntN(100000)
